@@ -374,3 +374,59 @@ pub fn obscured_number(tx: &bitcoin::Transaction) -> u64 {
 fn _t(_: Txid) {
 	let _ = Txid::all_zeros();
 }
+
+/// Compact rendering of the whole recorded history (for replay logs).
+pub fn dump_history(sim: &Sim) -> String {
+	let mut h = 0;
+	let mut s = 0;
+	let evs = merged_since(sim, &mut h, &mut s);
+	let mut out = String::new();
+	for (at, ev) in evs {
+		let line = match ev {
+			M::H(HEvent::SignCounterparty { node, tx, .. }) => format!("n{} SIGN counterparty #{} htlcs={} to_b={} to_c={}", node, INITIAL_MINUS(tx.commitment_number()), tx.nondust_htlcs().len(), tx.to_broadcaster_value_sat(), tx.to_countersignatory_value_sat()),
+			M::H(HEvent::ReleaseSecret { node, idx, .. }) => format!("n{} RELEASE secret #{}", node, INITIAL_MINUS(idx)),
+			M::H(HEvent::SignHolderCommitment { node, number, .. }) => format!("n{} SIGN holder #{}", node, INITIAL_MINUS(number)),
+			M::H(HEvent::SignHolderHtlc { node, per_commitment_number, .. }) => format!("n{} SIGN holder htlc on #{}", node, INITIAL_MINUS(per_commitment_number)),
+			M::H(HEvent::SignClosing { node, to_holder_sat, to_counterparty_sat, .. }) => format!("n{} SIGN closing {} / {}", node, to_holder_sat, to_counterparty_sat),
+			M::H(HEvent::SignJustice { node, .. }) => format!("n{} SIGN justice", node),
+			M::H(HEvent::PersistNew { node, chan, update_id, in_progress }) => format!("n{} PERSIST new {} id={} in_progress={}", node, short(&chan), update_id, in_progress),
+			M::H(HEvent::PersistUpdate { node, chan, update_id, steps, in_progress, .. }) => format!("n{} PERSIST update {} id={:?} steps={:?} in_progress={}", node, short(&chan), update_id, steps, in_progress),
+			M::H(HEvent::PersistCompleted { node, chan, update_id }) => format!("n{} COMPLETED {} id={}", node, short(&chan), update_id),
+			M::H(HEvent::Archive { node, .. }) => format!("n{} ARCHIVE", node),
+			M::S(SEvent::Emit { from, to, wire }) => format!("n{}->n{} EMIT {} {}", from, to, wire.kind(), wire_brief(&wire)),
+			M::S(SEvent::Deliver { from, to, wire }) => format!("n{}->n{} DELIVER {} {}", from, to, wire.kind(), wire_brief(&wire)),
+			M::S(SEvent::Dropped { from, to, wire }) => format!("n{}->n{} DROPPED {}", from, to, wire.kind()),
+			M::S(SEvent::ErrorAction { from, to, action, .. }) => format!("n{}->n{} ERRORACTION {}", from, to, action.chars().take(200).collect::<String>()),
+			M::S(SEvent::Ldk { node, ev }) => format!("n{} EVENT {}", node, format!("{:?}", ev).chars().take(160).collect::<String>()),
+			M::S(SEvent::Broadcast { node, tx }) => format!("n{} BROADCAST {} ({} in, {} out)", node, tx.compute_txid(), tx.input.len(), tx.output.len()),
+			M::S(SEvent::Disconnect { a, b }) => format!("DISCONNECT n{} n{}", a, b),
+			M::S(SEvent::Reconnect { a, b }) => format!("RECONNECT n{} n{}", a, b),
+			M::S(SEvent::Api { node, what, ok, detail }) => format!("n{} API {} ok={} {}", node, what, ok, detail.chars().take(120).collect::<String>()),
+			M::S(SEvent::Tamper { from, to, .. }) => format!("TAMPER revoke n{}->n{}", from, to),
+		};
+		out.push_str(&format!("{:>6} {}\n", at, line));
+	}
+	out
+}
+
+#[allow(non_snake_case)]
+fn INITIAL_MINUS(n: u64) -> String {
+	format!("N0-{}", ((1u64 << 48) - 1).saturating_sub(n))
+}
+
+fn short(c: &lightning::ln::types::ChannelId) -> String {
+	vcore::hex(&c.0[..3])
+}
+
+fn wire_brief(w: &Wire) -> String {
+	match w {
+		Wire::Add(m) => format!("id={} amt={} chan={}", m.htlc_id, m.amount_msat, short(&m.channel_id)),
+		Wire::Fulfill(m) => format!("id={} chan={}", m.htlc_id, short(&m.channel_id)),
+		Wire::Fail(m) => format!("id={} chan={}", m.htlc_id, short(&m.channel_id)),
+		Wire::Fee(m) => format!("rate={}", m.feerate_per_kw),
+		Wire::Commit(m) => format!("chan={} htlc_sigs={}", short(&m.channel_id), m.htlc_signatures.len()),
+		Wire::Revoke(m) => format!("chan={}", short(&m.channel_id)),
+		Wire::Reestablish(m) => format!("chan={} next_local={} next_remote={}", short(&m.channel_id), m.next_local_commitment_number, m.next_remote_commitment_number),
+		_ => String::new(),
+	}
+}
